@@ -34,9 +34,13 @@ import (
 	"github.com/keep-network/keep-common/pkg/persistence"
 
 	"github.com/keep-network/keep-core/internal/testutils"
+	"github.com/keep-network/keep-core/pkg/bitcoin"
 	"github.com/keep-network/keep-core/pkg/chain"
+	"github.com/keep-network/keep-core/pkg/chain/local_v1"
+	"github.com/keep-network/keep-core/pkg/generator"
 	"github.com/keep-network/keep-core/pkg/internal/tecdsatest"
 	"github.com/keep-network/keep-core/pkg/net"
+	netlocal "github.com/keep-network/keep-core/pkg/net/local"
 	"github.com/keep-network/keep-core/pkg/operator"
 	"github.com/keep-network/keep-core/pkg/protocol/group"
 	"github.com/keep-network/keep-core/pkg/tecdsa"
@@ -739,6 +743,7 @@ func TestVerifC08Sign(t *testing.T) {
 	}
 
 	msgs := c08Messages()
+	executorDone := false
 	var work []c08Work
 	prepared := map[string][]*signer{}
 	for _, w := range wallets {
@@ -803,6 +808,25 @@ func TestVerifC08Sign(t *testing.T) {
 				}
 			}
 		}
+		// the production signing executor itself (node -> signingExecutor.sign -> retry
+		// loop -> signing.Execute) for one wallet whose final group is smaller than the
+		// nominal group size: this executes the argument derivation of signing.go
+		// (wallet.groupSize(), wallet.groupDishonestThreshold(...)) that the subset runs
+		// below replicate. One node controls every seat, as in the repository's tests.
+		if sh, _ := r.Shard(); (sh == 0 || replay != nil) && !w.fixture && len(signers) < w.cfg.N && !executorDone {
+			executorDone = true
+			r.Eval(1)
+			r.Distinct("executor " + w.name)
+			sig, problem := c08RunExecutor(t, w, signers)
+			if problem != "" {
+				r.ViolationMin("executor-no-signature", len(w.cfg.Excluded), "signingExecutor.sign "+w.name,
+					fmt.Sprintf("wallet with a final group of %d (key generation group %d): the production signing executor produced no valid signature: %s", len(signers), w.cfg.N, problem), wcase)
+				r.Outcome("executor: no signature")
+			} else {
+				_ = sig
+				r.Outcome("executor: valid signature")
+			}
+		}
 		prepared[w.name] = signers
 		subsets := c08Subsets(len(signers), w.cfg.H)
 		if len(subsets) > 10 {
@@ -861,4 +885,74 @@ func TestVerifC08Sign(t *testing.T) {
 		}
 		c08Sign(r, wk.cs, prepared[wk.w.name], wk.w.cfg.H, timeout)
 	}
+}
+
+// c08RunExecutor signs one message with the production signing executor of a node that
+// controls all signers of the wallet.
+func c08RunExecutor(t *testing.T, w *c08Wallet, stored []*signer) (*tecdsa.Signature, string) {
+	operatorPrivateKey, operatorPublicKey, err := operator.GenerateKeyPair(local_v1.DefaultCurve)
+	if err != nil {
+		return nil, "infra: " + err.Error()
+	}
+	localChain := ConnectWithKey(operatorPrivateKey)
+	localProvider := netlocal.ConnectWithKey(operatorPublicKey)
+	operatorAddress, err := localChain.Signing().PublicKeyToAddress(operatorPublicKey)
+	if err != nil {
+		return nil, "infra: " + err.Error()
+	}
+	operators := make([]chain.Address, len(stored))
+	for i := range operators {
+		operators[i] = operatorAddress
+	}
+	signers := make([]*signer, len(stored))
+	for i, sg := range stored {
+		signers[i] = &signer{
+			wallet:                  wallet{publicKey: sg.wallet.publicKey, signingGroupOperators: operators},
+			signingGroupMemberIndex: sg.signingGroupMemberIndex,
+			privateKeyShare:         sg.privateKeyShare,
+		}
+	}
+	walletPublicKeyHash := bitcoin.PublicKeyHash(signers[0].wallet.publicKey)
+	walletID, err := localChain.CalculateWalletID(signers[0].wallet.publicKey)
+	if err != nil {
+		return nil, "infra: " + err.Error()
+	}
+	localChain.setWallet(walletPublicKeyHash, &WalletChainData{EcdsaWalletID: walletID, State: StateLive})
+	node, err := newNode(
+		&GroupParameters{GroupSize: w.cfg.N, GroupQuorum: w.cfg.H, HonestThreshold: w.cfg.H},
+		localChain, newLocalBitcoinChain(), localProvider,
+		createMockKeyStorePersistence(t, signers...), &mockPersistenceHandle{},
+		generator.StartScheduler(), &mockCoordinationProposalGenerator{}, Config{},
+	)
+	if err != nil {
+		return nil, "infra: newNode: " + err.Error()
+	}
+	executor, ok, err := node.getSigningExecutor(signers[0].wallet.publicKey)
+	if err != nil || !ok {
+		return nil, fmt.Sprintf("infra: getSigningExecutor: ok=%v err=%v", ok, err)
+	}
+	executor.signingAttemptsLimit = 2
+	blockCounter, err := localChain.BlockCounter()
+	if err != nil {
+		return nil, "infra: " + err.Error()
+	}
+	start, err := blockCounter.CurrentBlock()
+	if err != nil {
+		return nil, "infra: " + err.Error()
+	}
+	ctx, cancel := context.WithTimeout(context.Background(), 240*time.Second)
+	defer cancel()
+	message := big.NewInt(424242)
+	var sig *tecdsa.Signature
+	var serr error
+	if p, stack := vrep.Guard(func() { sig, _, _, serr = executor.sign(ctx, message, start) }); p != nil {
+		return nil, fmt.Sprintf("panic: %v\n%s", p, stack)
+	}
+	if serr != nil {
+		return nil, "sign returned: " + serr.Error()
+	}
+	if sig == nil || !ecdsa.Verify(signers[0].wallet.publicKey, message.Bytes(), sig.R, sig.S) {
+		return sig, "the returned signature does not verify under the wallet key"
+	}
+	return sig, ""
 }
